@@ -116,7 +116,12 @@ func newStepsSys(_ Meta, seed int64, init any) (Sys, error) {
 		return nil, err
 	}
 	s := &stepsSys{w: w, sc: &sched{parked: map[string]*gateArrival{}}, hk: st["hk"].(string)}
-	w.gate = s.sc.at
+	w.gate = func(point string) {
+		if point == "callout.auth" || point == "callout.alloccreated" {
+			return // marks of other walks (TurnReaper): not scheduling points of TurnServerSteps.tla
+		}
+		s.sc.at(point)
+	}
 	verifhook.Set(func(point string, _ any) { s.sc.at(point) })
 
 	return s, s.setup(st)
